@@ -266,7 +266,10 @@ def calculate_circle_center(vertices, method: str="dlite") -> Tuple:
                 center = dlite_circle_method(xs, ys)
             else:
                 try:
-                    xc, yc, r, sigma = cfit.taubinSVD(zipped_coords)
+                    # the fallback below relies on numpy raising; do not depend on the
+                    # calling thread's error state (np.seterr is thread-local)
+                    with np.errstate(all='raise'):
+                        xc, yc, r, sigma = cfit.taubinSVD(zipped_coords)
                     center = [xc, yc]
                 except FloatingPointError:
                     center = dlite_circle_method(xs, ys)
